@@ -1466,3 +1466,12 @@ def gen_crash(runner, tier, seed):
         s.send(firsts)
         s.send([f.data(x) for f, x in nexts])
         s.send([f.data(rb(r, r.randrange(0, 64))) for f, _ in nexts])
+    if tier != "quick":
+        # release profile (wrapping arithmetic, no overflow checks): the same frames must neither
+        # abort nor hang (per-batch watchdog in the driver client)
+        for cfg in (Config(SMAC, [S4, S6], [D4, D6], KEYS[1], "logfmt", 4), Config(SMAC, None, None, KEYS[1], "none", 0)):
+            s = runner.session(cfg, "crash matrix, release profile: self=%s logger=%s level=%d" % (bool(cfg.self_ips), cfg.logger, cfg.level), release=True)
+            s.send(seeds)
+            s.send(core)
+            for ch in chunks(muts[::3], 5000):
+                s.send(ch)
